@@ -102,6 +102,14 @@ pub fn all_exclusive() -> i64 {
     EXCLUSIVE.load(Ordering::SeqCst)
 }
 
+/// Serialises the traced releases of connection permits, so that the permit count a
+/// release reports is never inflated by a release that drew a later sequence number.
+static SERIAL: std::sync::Mutex<()> = std::sync::Mutex::new(());
+
+pub fn serial() -> std::sync::MutexGuard<'static, ()> {
+    SERIAL.lock().unwrap_or_else(|e| e.into_inner())
+}
+
 fn never() -> bool {
     false
 }
